@@ -24,10 +24,11 @@ CONSTANTS RejectCtl,   \* see above
           ArgLen,      \* hostile arguments: all symbol strings up to this length, at one position at a time
           Shapes,      \* reply shapes the server may use (subset of AllShapes)
           MaxOdd,      \* how many replies of one run may have a shape other than "single"
-          CutAll,      \* TRUE: the control stream is delivered in pieces of every possible length
+          CutMode,     \* "whole": a piece is everything sent so far; "edge": one byte or everything; "all": every length
           MaxSess,     \* number of sessions on one client (login cache, connection reuse)
           MaxData,     \* bytes on the data connection
-          Drops        \* TRUE: the server may drop the control connection instead of answering
+          Drops,       \* TRUE: the server may drop the control connection instead of answering
+          Modes        \* subset of {"file", "rest", "listing"}: plain RETR, RETR after REST, directory listing
 
 AllShapes == {"single", "multi", "multi_sp", "multi_dig", "lf", "multi_lf", "cr_in", "other"}
 Alphabet  == {97, CR, LF, NUL, SP, 37}     \* plain 'a', CR, LF, NUL, space, percent sign (after percent-decoding)
@@ -152,14 +153,16 @@ FinalMenu == {<<226, OKt>>, <<250, OKt>>, <<426, OKt>>}
 ReadingPcs == {"r_welcome", "r_user", "r_pass", "r_size", "r_rest", "r_type", "r_pasv", "r_begin", "r_final"}
 
 -----------------------------------------------------------------------------
-Init ==
-  /\ mode \in {"file", "listing"} /\ restart \in BOOLEAN /\ (mode = "listing" => ~restart)
-  /\ \E r \in Requests : user = r.user /\ pass = r.pass /\ path = r.path
+InitWith(m, r, u, p, q) ==
+  /\ mode = m /\ restart = r /\ user = u /\ pass = p /\ path = q
   /\ cpc = "start" /\ bcmd = "-" /\ cur = P0 /\ consumed = <<>> /\ logged = <<>> /\ sess = 1
   /\ copen = FALSE /\ wire = <<>> /\ inbuf = <<>> /\ cclosed = FALSE /\ pend = 0
   /\ daddr = 0 /\ dq = <<>> /\ dclosed = FALSE /\ dsent = 0 /\ dgot = 0 /\ xfer = FALSE /\ finalSent = FALSE
   /\ cmdBytes = <<>> /\ auto = Auto0 /\ replyOK = TRUE /\ transferComplete = FALSE /\ dataEOFSeen = FALSE
   /\ finalReplySeen = FALSE /\ finalCode = 0 /\ bodyOK = TRUE /\ codes = <<>> /\ outcome = "none" /\ odd = 0
+
+Init == \E m \in Modes, rq \in Requests :
+          InitWith(IF m = "listing" THEN "listing" ELSE "file", m = "rest", rq.user, rq.pass, rq.path)
 
 -----------------------------------------------------------------------------
 (* Where the client goes next: [pc, issue = <<>> | <<name, argument>>, logged, b]                       *)
@@ -224,7 +227,7 @@ Connect ==
 \* the network hands over the next piece (fakenet: only when the reader would block)
 Deliver(n) ==
   /\ cpc \in ReadingPcs /\ ~Has(inbuf, LF)
-  /\ n \in 1..Len(wire) /\ (CutAll \/ n = Len(wire))
+  /\ n \in 1..Len(wire) /\ (CutMode = "all" \/ n = Len(wire) \/ (CutMode = "edge" /\ n = 1))
   /\ inbuf' = inbuf \o SubSeq(wire, 1, n) /\ wire' = SubSeq(wire, n + 1, Len(wire))
   /\ UNCHANGED <<scen, cvars, copen, cclosed, pend, dvars, ovars, odd>>
 
@@ -281,10 +284,10 @@ ReadDataEOF ==
   /\ UNCHANGED <<cmdBytes, auto, replyOK, transferComplete, finalReplySeen, finalCode, bodyOK, codes, outcome>>
 
 \* the next session on the same client: the control connection comes back from the pool
-NextSession ==
+NextSession(u, m) ==
   /\ cpc = "done" /\ sess < MaxSess
   /\ sess' = sess + 1 /\ cpc' = "start" /\ bcmd' = "-"
-  /\ user' \in {user, <<98>>} /\ mode' \in {"file", "listing"} /\ restart' = FALSE
+  /\ user' = u /\ mode' = m /\ restart' = FALSE
   /\ daddr' = 0 /\ dq' = <<>> /\ dclosed' = FALSE /\ dsent' = 0 /\ dgot' = 0 /\ xfer' = FALSE /\ finalSent' = FALSE
   /\ transferComplete' = FALSE /\ dataEOFSeen' = FALSE /\ finalReplySeen' = FALSE /\ finalCode' = 0 /\ bodyOK' = TRUE
   /\ outcome' = "none" /\ auto' = <<"start", auto[2], auto[3]>>
@@ -328,20 +331,21 @@ DropWith(bs) ==
 ServerDrop == Drops /\ \E bs \in {<<>>, <<50, 50>>, <<50, 50, 48, DASH, 120, CR, LF>>} : DropWith(bs)
 
 DataSend(n) ==
-  /\ xfer /\ ~dclosed /\ cpc \in {"r_begin", "data"} /\ n \in 1..(MaxData - dsent)
+  /\ xfer /\ ~dclosed /\ cpc = "data" /\ n \in 1..(MaxData - dsent)
   /\ dq' = Append(dq, n) /\ dsent' = dsent + n
   /\ UNCHANGED <<scen, cvars, nvars, daddr, dclosed, dgot, xfer, finalSent, ovars, odd>>
 
 DataClose ==
-  /\ xfer /\ ~dclosed /\ cpc \in {"r_begin", "data"}
+  /\ xfer /\ ~dclosed /\ cpc = "data"
   /\ dclosed' = TRUE
   /\ UNCHANGED <<scen, cvars, nvars, daddr, dq, dsent, dgot, xfer, finalSent, ovars, odd>>
 
 -----------------------------------------------------------------------------
 ClientNext == Connect \/ ReadLine \/ ReadEOF \/ DataConnect \/ ReadData \/ ReadDataEOF
 DeliverAny  == \E n \in 1..Len(wire) : Deliver(n)
+NextSessionAny == \E u \in {user, <<98>>}, m \in {"file", "listing"} : NextSession(u, m)
 DataSendAny == \E n \in 1..MaxData : DataSend(n)
-EnvNext    == DeliverAny \/ ServerReply \/ ServerFinal \/ ServerDrop \/ DataSendAny \/ DataClose \/ NextSession
+EnvNext    == DeliverAny \/ ServerReply \/ ServerFinal \/ ServerDrop \/ DataSendAny \/ DataClose \/ NextSessionAny
 Next == ClientNext \/ EnvNext
 Spec == Init /\ [][Next]_vars
 
